@@ -119,7 +119,8 @@ def work(job):
         res["counters"]["double_signal_injections"] = 1
     with core.Box(tag="c18") as box:
         cfg = proj.materialise(box)
-        rec = core.run_breadlog(built, box, cfg, check=(mode == "check"), rules=rules, timeout=120, stdio_ops=True)
+        rec = core.run_breadlog(built, box, cfg, check=(mode == "check"), rules=rules, timeout=120, stdio_ops=True,
+                                stdin_tty=bool(second and len(second) > 2 and second[2]))
         fired = [o for o in (rec.shim or []) if o["fired"]]
         if rec.timed_out:
             res["inconclusive"]["timeout"] = 1
@@ -211,6 +212,9 @@ def main(tier):
             for k in ks[::3]:
                 for s, s2 in (("TERM", "INT"), ("INT", "INT"), ("TERM", "TERM")):
                     jobs.append((built, pi, proj, expected, k, s, mode, (1 + (k % 3), s2)))
+                # ... and the same when the tool is run interactively (stdin is a terminal)
+                jobs.append((built, pi, proj, expected, k, "INT", mode, (1 + (k % 2), "INT", True)))
+                jobs.append((built, pi, proj, expected, k, "TERM", mode, (2, "INT", True)))
     rnd.shuffle(jobs)
     for res in frame.pmap(work, jobs, chunksize=8):
         ck.absorb(res)
@@ -253,7 +257,7 @@ def replay_witness(w, ck=None, built=None):
     ops, after, rec, expected, lock = fault.clean_reference(built, proj, check=(c["mode"] == "check"), stdio_ops=True)
     job = (built, c["project"], proj, expected, c["k"], c["sig"], c["mode"])
     if c.get("second"):
-        job = job + ((c["second"][0], c["second"][1]),)
+        job = job + (tuple(c["second"]),)
     r = work(job)
     return bool(r["violations"])
 
